@@ -15,6 +15,9 @@ void harness(void) {
   uint8_t out[MAXTOK * (TOKCAP + 1)];
   in_bytes(in, LEN);
   for (int i = 0; i < LEN; i++) ASSUME(in[i] != 0);
+#ifdef QUOTES
+  { uint8_t q = in_bool() ? '"' : '\''; for (int i = 0; i < LEN; i++) in[i] = q; }
+#endif
   memset(out, 0, sizeof(out));
   int64_t r = w_split_args(in, LEN, out, MAXTOK, TOKCAP);
   OBS(r);
